@@ -12,7 +12,8 @@ from mc.httph import ServerConn, read_responses
 from mc.vloop import World
 
 VERSIONS = ["1.1", "1.0"]
-CONNS = [None, "close", "Close", "keep-alive", "Keep-Alive", "close, x", "x, close", "keep-alive, x", "x,keep-alive", "x"]
+CONNS = [None, "close", "Close", "keep-alive", "Keep-Alive", "close, x", "x, close", "keep-alive, x", "x,keep-alive", "x",
+         "x,close", "x ,close", "x\r\nConnection: close"]      # (the last one: two Connection field lines)
 METHODS = ["GET", "HEAD", "POST", "OPTIONS"]
 BODIES = ["none", "cl", "cl0", "chunked"]
 HANDLERS = ["buffered", "streamed", "early", "earlyflush", "s304", "s204flush", "ownconn", "shortcl", "raw", "r404"]
@@ -135,7 +136,7 @@ def request_bytes(version, conn, method, body, handler):
 
 def decide(version, conn, method, body, nka, handler):
     """-> (verdict, why) with verdict in KEEP / CLOSE / EITHER."""
-    tokens = [t.strip().lower() for t in conn.split(",")] if conn is not None else []
+    tokens = [t.strip().lower() for t in conn.replace("\r\nConnection:", ",").split(",")] if conn is not None else []
     if handler == "shortcl" and method != "HEAD":
         return "CLOSE", "response-not-properly-delimited"
     if nka:
